@@ -528,7 +528,9 @@ func (m *Machine) Assert(cond *smt.Term, label, pos string) {
 	p.Events = append(p.Events, ev)
 	// continue under the assumption that the claim holds, if possible
 	if rr, _ := m.sat(cond, false, false); rr == smt.Unsat {
-		panic(abortPath{"done", "assertion fails on every input of this path"})
+		// the assertion fails on every input of this path: it has been recorded; keep
+		// executing (later assertions of the harness are still checked)
+		return
 	}
 	p.addPC(cond)
 }
